@@ -103,13 +103,21 @@ func hostProxy(ctx context.Context, host, shimPath string, injectShimCode, force
 		Scheme: "http",
 		Host:   host,
 	})
+	// Responses are relayed exactly as the backend encoded them: by default the transport
+	// would ask for gzip on its own when the client did not, and then strip the
+	// Content-Encoding header and decompress the body.
 	if forceHTTP2 {
 		hostProxy.Transport = &http2.Transport{
-			AllowHTTP: true,
+			AllowHTTP:          true,
+			DisableCompression: true,
 			DialTLSContext: func(ctx context.Context, network string, addr string, cfg *tls.Config) (net.Conn, error) {
 				return net.Dial(network, addr)
 			},
 		}
+	} else {
+		transport := http.DefaultTransport.(*http.Transport).Clone()
+		transport.DisableCompression = true
+		hostProxy.Transport = transport
 	}
 	hostProxy.FlushInterval = 100 * time.Millisecond
 	var h http.Handler = hostProxy
